@@ -428,12 +428,444 @@ def run_multi(chk: common.Check, oracle_fail: list) -> None:
             oracle_fail.append(({'multi_object': s}, [f'several Nextline objects in one process: {m[0]}'] + m[1:], None))
 
 
+# ---- several objects whose runs OVERLAP in time: the records of every run ---------------------------------------------------------------
+# "Every record and event of a run carries that run's number."  The objects of one process number their runs independently (and number
+# the traces / prompts of every run from 1), their runs are in progress at the same time, and the children report trace starts / ends,
+# prompts and output with the SAME trace numbers in interleaved orders.  Whatever an object puts on its trace_info / prompt_info /
+# stdout / run_info streams must be the records of ITS run: its run number, its own started trace behind every 'finished' record
+# (also when the run ends with traces still open), nothing that another object's child reported.
+
+OV_STREAMS = ('run_info', 'trace_info', 'prompt_info', 'stdout')
+OV_CTL = ('run', 'exit', 'reset')
+
+
+class _OvModel:
+    """what one object's run has reported so far, and which records each further action has to produce on the object's streams"""
+
+    def __init__(self, i: int, base: int) -> None:
+        self.i, self.rn, self.state = i, base, 'initialized'
+        self.nout = 0
+        self.nreset = 0
+        self._new_run()
+
+    def _new_run(self) -> None:
+        self.started: list = []
+        self.open: list = []
+        self.prompt: dict = {}
+        self.np = 0
+        self.ncall = 0
+
+    def thread_no(self, t: int) -> int:
+        return 10 * (self.i + 1) + t
+
+    def ts(self, t: int) -> str:
+        """the time the child reports for the start of trace t: distinct per (object, run, trace)"""
+        import datetime
+        return (datetime.datetime(2024, 1, 1) + datetime.timedelta(seconds=3600 * self.i + 10 * (self.rn % 300) + t)).isoformat()
+
+    def cands(self, rng: Any, base: int) -> list:
+        i = self.i
+        if self.state == 'initialized':
+            return [(['run', i], 6), (['reset', i, None], 1)]
+        if self.state == 'finished':
+            return [(['reset', i, None], 3), (['reset', i, base + 10 * (self.nreset + 1) + rng.randint(0, 3)], 2)]
+        out: list = []
+        unused = [t for t in (1, 2, 3, 4) if t not in self.started]
+        if unused:
+            out.append((['tstart', i, unused[0]], 5))
+        if len(unused) > 1:
+            out.append((['tstart', i, unused[1]], 1))
+        for t in self.open:
+            if t in self.prompt:
+                out.append((['pend', i, t], 3))
+            else:
+                out += [(['tend', i, t], 2), (['prompt', i, t], 2)]
+            out.append((['out', i, t], 1))
+        out += [(['exit', i, 'ok'], 1), (['exit', i, 'kill'], 1)]
+        return out
+
+    def apply(self, act: list) -> dict:
+        """advance; returns {stream: [expected record, ...]} (+ 'unordered': True when the order within trace_info is not determined)"""
+        k = act[0]
+        rn = self.rn
+        if k == 'run' and self.state == 'initialized':
+            self.state = 'running'
+            return {'run_info': [(rn, 'running')]}
+        if k == 'reset' and self.state in ('initialized', 'finished'):
+            self.rn = rn + 1 if act[2] is None else act[2]
+            self.nreset += 1
+            self.state = 'initialized'
+            self._new_run()
+            return {'run_info': [(self.rn, 'initialized')]}
+        if self.state != 'running':
+            raise ValueError(f'{act!r} in state {self.state}')
+        if k == 'exit':
+            left = [(rn, 'finished', t, self.thread_no(t), self.ts(t)) for t in self.open]
+            self.state = 'finished'
+            self.open = []
+            self.prompt = {}
+            return {'run_info': [(rn, 'finished')], 'trace_info': left, 'unordered': True}
+        t = act[2]
+        if k == 'tstart' and t not in self.started:
+            self.started.append(t)
+            self.open.append(t)
+            return {'trace_info': [(rn, 'running', t, self.thread_no(t), self.ts(t))]}
+        if t not in self.open:
+            raise ValueError(f'{act!r}: trace {t} is not open')
+        if k == 'tend' and t not in self.prompt:
+            self.open.remove(t)
+            return {'trace_info': [(rn, 'finished', t, self.thread_no(t), self.ts(t))]}
+        if k == 'prompt' and t not in self.prompt:
+            self.np += 1
+            self.ncall += 1
+            self.prompt[t] = (self.np, self.ncall)
+            return {'prompt_info': [(rn, t, self.np, True)]}
+        if k == 'pend' and t in self.prompt:
+            p, _ = self.prompt.pop(t)
+            return {'prompt_info': [(rn, t, p, False)]}
+        if k == 'out':
+            self.nout += 1
+            return {'stdout': [(rn, t, f'{OV_NAMES[self.i]}{rn}:{self.nout}\n')]}
+        raise ValueError(f'{act!r} is not possible here')
+
+
+OV_NAMES = 'ABC'
+
+
+def gen_overlap(rng, nobj: int, nsteps: int) -> dict:
+    """a valid history of `nobj` objects: a list of steps, each step a few actions issued together (an object that is run / reset / whose
+    child exits in a step does nothing else in that step).  Run numbers start from different values, or from the same value."""
+    bases = [1] * nobj if rng.random() < 0.2 else [1 + 100 * i for i in range(nobj)]
+    models = [_OvModel(i, b) for i, b in enumerate(bases)]
+    steps: list = []
+    for _ in range(nsteps):
+        step: list = []
+        busy: dict = {}
+        for _ in range(rng.choice([1, 1, 2, 2, 3, 4])):
+            cand: list = []
+            for m in models:
+                mode = busy.get(m.i)
+                if mode == 'ctl':
+                    continue
+                for a, w in m.cands(rng, bases[m.i]):
+                    if a[0] in OV_CTL and mode == 'emit':
+                        continue
+                    cand += [a] * w
+            if not cand:
+                break
+            a = rng.choice(cand)
+            models[a[1]].apply(a)
+            busy[a[1]] = 'ctl' if a[0] in OV_CTL else 'emit'
+            step.append(a)
+        if step:
+            steps.append(step)
+    return {'bases': bases, 'steps': steps, 'start_at_once': rng.random() < 0.5}
+
+
+def overlap_corpus() -> list:
+    two = [1, 101]
+    return [
+        # both runs stop in trace 1; A's trace ends first, then B's
+        {'bases': two, 'steps': [[['run', 0]], [['tstart', 0, 1]], [['run', 1]], [['tstart', 1, 1]], [['tend', 0, 1]], [['tend', 1, 1]],
+                                 [['exit', 0, 'ok']], [['exit', 1, 'ok']]]},
+        # the same with prompts and output, the events of both children arriving together
+        {'bases': two, 'steps': [[['run', 0], ['run', 1]], [['tstart', 0, 1], ['tstart', 1, 1]], [['prompt', 0, 1], ['out', 1, 1], ['prompt', 1, 1]],
+                                 [['pend', 1, 1], ['pend', 0, 1], ['out', 0, 1]], [['tend', 1, 1], ['tend', 0, 1]], [['exit', 0, 'ok'], ['exit', 1, 'ok']]]},
+        # A's run ends (is killed) with its trace still open while B's trace 1 is open
+        {'bases': two, 'steps': [[['run', 0]], [['run', 1]], [['tstart', 0, 1]], [['tstart', 1, 1]], [['exit', 0, 'kill']], [['tend', 1, 1]],
+                                 [['exit', 1, 'ok']]]},
+        # B is reset and run again while A's traces are open
+        {'bases': two, 'steps': [[['run', 0]], [['tstart', 0, 1], ['tstart', 0, 2]], [['run', 1]], [['exit', 1, 'ok']], [['reset', 1, None]],
+                                 [['tend', 0, 1]], [['run', 1]], [['tstart', 1, 2]], [['tend', 0, 2]], [['exit', 0, 'ok']], [['tend', 1, 2]]]},
+        # three objects, all numbering their runs from 1
+        {'bases': [1, 1, 1], 'steps': [[['run', 0], ['run', 1], ['run', 2]], [['tstart', 2, 1]], [['tstart', 1, 1]], [['tstart', 0, 1]],
+                                       [['tend', 2, 1]], [['exit', 1, 'ok']], [['tend', 0, 1]]]},
+        # a reset that restarts the numbering, next to a run in progress
+        {'bases': two, 'steps': [[['run', 1]], [['tstart', 1, 1], ['out', 1, 1]], [['run', 0]], [['tstart', 0, 1]], [['exit', 0, 'ok']],
+                                 [['reset', 0, 40]], [['run', 0]], [['tstart', 0, 1], ['tend', 1, 1]], [['exit', 1, 'kill']], [['tend', 0, 1]]]},
+    ]
+
+
+def overlap_nontrivial(spec: dict) -> bool:
+    """some object's trace t starts while ANOTHER object has a trace with the same number t open"""
+    models = [_OvModel(i, b) for i, b in enumerate(spec['bases'])]
+    try:
+        for step in spec['steps']:
+            for a in step:
+                if a[0] == 'tstart' and any(a[2] in m.open for m in models if m.i != a[1]):
+                    return True
+                models[a[1]].apply(a)
+    except ValueError:
+        pass
+    return False
+
+
+def multi_overlap(spec: dict) -> dict:
+    """Drive len(spec['bases']) Nextline objects (simulated children, one event loop; object i numbers its runs from spec['bases'][i])
+    through spec['steps'].  The actions of a step are issued together, then the loop runs until it is idle; then every object's streams
+    (subscribed once, after start()) are read: what arrived in this step on an object's stream must be exactly the records its own
+    actions of this step produce, each carrying the object's current run number.  spec['schedule']: None = FIFO, int = seed of a
+    random schedule."""
+    import asyncio
+    import datetime
+    import random
+    from .. import fakes, loop as ctl
+    from nextline import events as E
+    from nextline.spawned import RunResult
+
+    msgs: list = []
+    notes: dict = {}
+
+    def note(k: str, n: int = 1) -> None:
+        notes[k] = notes.get(k, 0) + n
+
+    def project(stream: str, r: Any) -> tuple:
+        if stream == 'run_info':
+            return (r.run_no, r.state)
+        if stream == 'trace_info':
+            return (r.run_no, r.state, r.trace_no, r.thread_no, r.started_at.isoformat() if r.started_at is not None else None)
+        if stream == 'prompt_info':
+            return (r.run_no, r.trace_no, r.prompt_no, r.open)
+        return (r.run_no, r.trace_no, r.text)
+
+    async def main() -> None:
+        from nextline import Nextline
+        world = fakes.reset_world()
+        world.signal_exits = False
+        objs: list = []
+        for i, base in enumerate(spec['bases']):
+            name = OV_NAMES[i]
+            stmt = f'{name.lower()} = {i}\n'
+            objs.append({'nl': Nextline(stmt, run_no_start_from=base), 'name': name, 'stmt': stmt, 'model': _OvModel(i, base), 'child': None,
+                         'recs': {s: [] for s in OV_STREAMS}, 'seen': {s: 0 for s in OV_STREAMS}, 'tasks': [], 'closed': False})
+        clock = [0]
+
+        def now() -> datetime.datetime:
+            clock[0] += 1
+            return datetime.datetime(2024, 6, 1) + datetime.timedelta(seconds=clock[0])
+
+        async def settle_calls(calls: list) -> None:
+            await lifecycle.settle()
+            pend = [(w, t) for w, t in calls if not t.done()]
+            for _, t in pend:
+                t.cancel()
+            if pend:
+                await lifecycle.settle()
+                raise RuntimeError(f'{pend[0][0]} did not return')
+            for _, t in calls:
+                t.result()
+
+        def consume(o: dict, stream: str) -> None:
+            nl = o['nl']
+            it = {'run_info': nl.subscribe_run_info, 'trace_info': nl.subscribe_trace_info, 'prompt_info': nl.subscribe_prompt_info,
+                  'stdout': nl.subscribe_stdout}[stream]()
+
+            async def pump() -> None:
+                async for r in it:
+                    o['recs'][stream].append(r)
+            o['tasks'].append(asyncio.ensure_future(pump()))
+
+        def emit(o: dict, act: list) -> None:
+            c, m = o['child'], o['model']
+            k, t, rn = act[0], act[2], c.run_arg.run_no
+            if k == 'tstart':
+                c.emit(E.OnStartTrace(started_at=datetime.datetime.fromisoformat(m.ts(t)), run_no=rn, trace_no=t, thread_no=m.thread_no(t), task_no=None))
+            elif k == 'tend':
+                c.emit(E.OnEndTrace(ended_at=now(), run_no=rn, trace_no=t))
+            elif k == 'prompt':
+                p, call = m.prompt[t]
+                c.emit(E.OnStartTraceCall(started_at=now(), run_no=rn, trace_no=t, trace_call_no=call, file_name='<string>', line_no=1,
+                                          frame_object_id=t, event='line'))
+                c.emit(E.OnStartCmdloop(started_at=now(), run_no=rn, trace_no=t, trace_call_no=call))
+                c.emit(E.OnStartPrompt(started_at=now(), run_no=rn, trace_no=t, trace_call_no=call, prompt_no=p, prompt_text='(Pdb) ',
+                                       file_name='<string>', line_no=1, frame_object_id=t, event='line'))
+            elif k == 'pend':
+                p, call = o['ending']
+                c.emit(E.OnEndPrompt(ended_at=now(), run_no=rn, trace_no=t, trace_call_no=call, prompt_no=p, command='next'))
+                c.emit(E.OnEndCmdloop(ended_at=now(), run_no=rn, trace_no=t, trace_call_no=call))
+                c.emit(E.OnEndTraceCall(ended_at=now(), run_no=rn, trace_no=t, trace_call_no=call))
+            elif k == 'out':
+                c.emit(E.OnWriteStdout(written_at=now(), run_no=rn, trace_no=t, text=f'{o["name"]}{m.rn}:{m.nout}\n'))
+            else:
+                raise ValueError(act)
+
+        def others(o: dict, n: int) -> str:
+            who = [x['name'] for x in objs if x is not o and x['model'].rn == n and o['model'].rn != n]
+            return f' ({n} is the number of the run of {" and ".join(who)})' if who else ''
+
+        def check(when: str, expected: dict) -> None:
+            for o in objs:
+                if o['closed']:
+                    continue
+                name, rn = o['name'], o['model'].rn
+                exp = expected.get(o['model'].i, {})
+                for s in OV_STREAMS:
+                    new = o['recs'][s][o['seen'][s]:]
+                    o['seen'][s] = len(o['recs'][s])
+                    note(f'records-{s}', len(new))
+                    got = [project(s, r) for r in new]
+                    for g in got:
+                        if g[0] != rn:
+                            msgs.append(f"{when}: a record on {name}'s {s} stream carries run number {g[0]}; {name}'s run is number {rn}"
+                                        f"{others(o, g[0])}: {g!r}")
+                            break
+                    want = list(exp.get(s, []))
+                    if s == 'prompt_info':
+                        # records that are not about a prompt (prompt number -1: "the trace call has ended") are not modelled one by
+                        # one; they must be about a trace of this object's run that has had a prompt
+                        extra = [g for g in got if g[2] == -1]
+                        got = [g for g in got if g[2] != -1]
+                        known = {w[1] for w in want} | set(o['model'].started)
+                        for g in extra:
+                            if g[1] not in known:
+                                msgs.append(f"{when}: {name}'s prompt_info stream delivered {g!r}; trace {g[1]} is not a trace of {name}'s run")
+                    if s == 'trace_info' and exp.get('unordered'):
+                        got, want = sorted(got, key=repr), sorted(want, key=repr)
+                    if got != want:
+                        msgs.append(f"{when}: {name}'s {s} stream delivered {got!r}; {name}'s run (number {rn}) produced {want!r}"
+                                    + (' (run number, state, trace number, thread number, start time)' if s == 'trace_info' else ''))
+
+        async def do_step(k: Any, step: list) -> None:
+            when = f'step {k} {step!r}'
+            calls: list = []
+            exits: list = []
+            expected: dict = {}
+            n0 = len(world.children)
+            for act in step:
+                o = objs[act[1]]
+                m, nl, name = o['model'], o['nl'], o['name']
+                if act[0] == 'pend':
+                    o['ending'] = m.prompt.get(act[2])
+                exp = m.apply(act)
+                e = expected.setdefault(m.i, {})
+                for s, v in exp.items():
+                    if s == 'unordered':
+                        e[s] = True
+                    else:
+                        e.setdefault(s, []).extend(v)
+                if act[0] == 'run':
+                    calls.append((f'{name}.run()', asyncio.ensure_future(nl.run())))
+                elif act[0] == 'reset':
+                    kw = {} if act[2] is None else {'run_no_start_from': act[2]}
+                    calls.append((f'{name}.reset()', asyncio.ensure_future(nl.reset(**kw))))
+                elif act[0] == 'exit':
+                    if act[2] == 'kill':
+                        o['child'].exit(None, exitcode=-9)
+                    else:
+                        o['child'].exit(RunResult(ret=None), exitcode=0)
+                    exits.append(o)
+                else:
+                    emit(o, act)
+            await settle_calls(calls)
+            for c in world.children[n0:]:
+                owner = [o for o in objs if o['stmt'] == c.run_arg.statement]
+                if len(owner) != 1:
+                    raise RuntimeError(f'a child runs {c.run_arg.statement!r}, which is the script of {len(owner)} objects')
+                owner[0]['child'] = c
+            for act in step:
+                o = objs[act[1]]
+                m, nl, name = o['model'], o['nl'], o['name']
+                if act[0] == 'run':
+                    c = o['child']
+                    if c is None or not c.process.alive:
+                        raise RuntimeError(f'{name}.run() did not start a child')
+                    if c.run_arg.run_no != m.rn or nl.run_no != m.rn:
+                        msgs.append(f'{when}: the run of {name} executes as run {c.run_arg.run_no}, run_no is {nl.run_no}; the numbering of {name} '
+                                    f'gives {m.rn}')
+                elif act[0] == 'reset' and nl.run_no != m.rn:
+                    msgs.append(f'{when}: {name}.run_no is {nl.run_no} after the reset; the numbering of {name} gives {m.rn}')
+            for o in exits:
+                if o['nl'].state != 'finished':
+                    raise RuntimeError(f"{o['name']} is {o['nl'].state!r} after its child has exited")
+            check(when, expected)
+
+        starts = [(f"{o['name']}.start()", o['nl'].start()) for o in objs]
+        if spec.get('start_at_once'):
+            await settle_calls([(w, asyncio.ensure_future(c)) for w, c in starts])
+        else:
+            for w, c in starts:
+                await settle_calls([(w, asyncio.ensure_future(c))])
+        for o in objs:
+            for s in OV_STREAMS:
+                consume(o, s)
+        await lifecycle.settle()
+        check('after start()', {o['model'].i: {'run_info': [(o['model'].rn, 'initialized')]} for o in objs})
+        for k, step in enumerate(spec['steps']):
+            if len(msgs) >= 6:
+                break
+            await do_step(k, step)
+        left = [['exit', o['model'].i, 'ok'] for o in objs if o['model'].state == 'running']
+        if left and len(msgs) < 6:
+            await do_step('last (the runs still in progress end)', left)
+        # every trace that has started has got exactly one 'running' and one 'finished' record, both its own
+        for o in objs:
+            per: dict = {}
+            for r in o['recs']['trace_info']:
+                per.setdefault((r.run_no, r.trace_no, r.thread_no), []).append(r.state)
+            for key, states in per.items():
+                if states != ['running', 'finished'] and len(msgs) < 6:
+                    msgs.append(f"{o['name']}'s trace_info stream: the trace (run {key[0]}, trace {key[1]}, thread {key[2]}) has the records {states!r}; "
+                                f"expected ['running', 'finished']")
+        for c in world.live():
+            c.exit(RunResult(ret=None), exitcode=0)
+        await lifecycle.settle()
+        for o in objs:
+            await asyncio.wait_for(o['nl'].close(), timeout=5)
+            o['closed'] = True
+        await lifecycle.settle()
+        for o in objs:
+            for t in o['tasks']:
+                if not t.done():
+                    note('stream-open-after-close')      # the end of streams at close() is another property's business
+                    t.cancel()
+        await lifecycle.settle()
+
+    fakes.install()
+    sched = spec.get('schedule')
+    chooser = ctl.Fifo() if sched is None else ctl.Rand(random.Random(sched))
+    try:
+        ctl.run(main, chooser)
+    except (Exception, ctl.StepBudgetExceeded) as e:  # noqa
+        return {'error': f'{type(e).__name__}: {e}', 'msgs': msgs, 'notes': notes}
+    return {'msgs': msgs, 'notes': notes}
+
+
+def run_overlap(chk: common.Check, oracle_fail: list) -> None:
+    rng = chk.rng
+    specs = []
+    for s in overlap_corpus():
+        specs.append(dict(s, start_at_once=False, schedule=None))
+        specs.append(dict(s, start_at_once=True, schedule=rng.randrange(10 ** 6)))
+    for _ in range(60 if chk.tier == 'quick' else 600):
+        s = gen_overlap(rng, rng.choice([2, 2, 3]), rng.randint(6, 16))
+        s['schedule'] = None if rng.random() < 0.4 else rng.randrange(10 ** 6)
+        specs.append(s)
+    for s in specs:
+        r = multi_overlap(s)
+        chk.cov.case(('multi-overlap', s), trivial=not overlap_nontrivial(s))
+        chk.cov.count('kinds', 'multi-object-overlapping-runs')
+        for k, v in r['notes'].items():
+            chk.cov.count('multi_overlap', k, v)
+        for step in s['steps']:
+            for a in step:
+                chk.cov.count('multi_overlap_ops', a[0])
+        m = list(r['msgs'])
+        if 'error' in r:
+            m.append(f'scenario failed: {r["error"]}')
+        if m:
+            oracle_fail.append(({'multi_overlap': s}, [f'several Nextline objects with overlapping runs: {m[0]}'] + m[1:], None))
+
+
 def run(chk: common.Check) -> None:
     chk.cov.rule = ('serial histories (as C01) with reset carrying every subset of {statement, run_no_start_from, trace_threads, trace_modules}, '
                     'initial options varied; observables: run_no/run_info/statement publications and the RunArg handed to the simulated child; '
                     'compared with the Lean model; overlapping calls (oracle only); two or three objects in one process and one loop, started / '
                     'reset / run in interleaved orders (serial and at once, FIFO and random schedules), scripts given as str and as path: every '
-                    'live object displays (statement, get_source, get_source_line) and executes (RunArg, run info) its own script. Non-trivial: at least one reset with options followed by a run; '
+                    'live object displays (statement, get_source, get_source_line) and executes (RunArg, run info) its own script; two or three objects '
+                    'numbering their runs from different (or equal) values whose runs overlap in time, the simulated children reporting trace starts / ends, '
+                    'prompts and output with the same trace numbers in interleaved orders (also several at once, runs ending with traces open, resets '
+                    'next to runs in progress): every record on an object\'s run_info / trace_info / prompt_info / stdout stream carries that object\'s '
+                    'run number and is a record of its own run, every started trace gets exactly its own finished record. Non-trivial: at least one reset with options followed by a run; '
                     'distinct = distinct (options, history, schedule kind).')
     chk.assumptions += ['serial histories (reset ∥ run overlap is known finding F-A2)']
     L = 3 if chk.tier == 'quick' else 4
@@ -467,6 +899,7 @@ def run(chk: common.Check) -> None:
             if m:
                 oracle_fail.append(({'overlap': r}, m, None))
     run_multi(chk, oracle_fail)
+    run_overlap(chk, oracle_fail)
     # real spawn children, two runs of one object, the second after reset(run_no_start_from=10): every record of the second run —
     # run info, trace info, prompt info, captured stdout — carries the number published for it
     script = 'import threading\ndef w():\n    print("in thread")\nt = threading.Thread(target=w)\nt.start()\nt.join()\nprint("in main")\n'
